@@ -134,6 +134,21 @@ def directed(name, quick):
                                 P.add(c, PB.M(q))
                                 cs.append(c)
                             out.append(P.steps)
+        # ... and the same pair as SIBLINGS inside one parent (same sequence of kinds, different qubits / wait durations): each
+        # block's instructions must name its own qubits (on the unchanged tree the export is refused: known finding S8b)
+        for k1 in kinds[:2]:
+            for (qa, qb) in ((0, 1), (2, 0)):
+                for rep in (1, 2):
+                    P = PB.Prog()
+                    m = P.new()
+                    P.add(m, PB.leaf(k1, [3], [[3, 'MICROWAVE']], ['global', 'MW']))
+                    for q, d in zip((qa, qb), (4, 12)):
+                        s_ = P.new(rep=rep)
+                        P.add(s_, PB.leaf('Ry90', [q], [[q, 'MICROWAVE']], ['global', 'MW']))
+                        P.add(s_, PB.W(q, d))
+                        P.add_sub(m, s_)
+                    P.add(m, PB.M(qa))
+                    out.append(P.steps)
     if name == 'subrel':
         # sub-circuits whose own relation refers to an earlier entry of the parent -- a plain operation or an already nested
         # sub-circuit (at the start of the parent or behind another operation) -- on qubits nothing else has touched
